@@ -202,6 +202,11 @@ func (r *ReaderStream) Read(p []byte) (int, error) {
 // manner that's safe for the assembler (IE: it doesn't block).
 func (r *ReaderStream) Close() error {
 	r.current = nil
+	if !r.first && !r.closed {
+		// A batch handed over by Reassembled has not been acknowledged yet:
+		// the assembler is waiting on done, so release it before draining.
+		r.done <- true
+	}
 	r.closed = true
 	for {
 		if _, ok := <-r.reassembled; !ok {
